@@ -8,6 +8,9 @@ type Document struct {
 	ID      string
 	Parents []*Document
 	Data    any
+
+	// $merge hosts that are being merged and evaluated in place right now
+	resolving []map[string]any
 }
 
 func NewDocument(id string) *Document {
